@@ -18,7 +18,8 @@ Definition resp_ok (i : N) (rs : resp) (parts : list resp) : Prop :=
   rs_data rs = concat (map rs_data parts) /\ Forall (ptag i) parts /\ parts <> [] /\ meta_ok rs parts /\
   ((2 <= length parts)%nat ->
    len (rs_data rs) <= MAX_OVERFLOW_SIZE /\ rs_type rs = RDM_ACK /\
-   (rs_cc rs = GET_COMMAND_RESPONSE \/ rs_cc rs = SET_COMMAND_RESPONSE)).
+   (rs_cc rs = GET_COMMAND_RESPONSE \/ rs_cc rs = SET_COMMAND_RESPONSE)) /\
+  (forall p, parts = [p] -> rs = p).   (* a single answer is passed on as it is *)
 
 Definition comp_ok (c : comp) : Prop :=
   c_kind c = K_ANSWERED ->
@@ -81,7 +82,7 @@ Proof.
   split.
   - split; [constructor; [split; reflexivity|constructor]|].
     split; intros x Hx; inversion Hx; subst; reflexivity.
-  - intros; lia.
+  - split; [intros; lia|]. intros p Hp. inversion Hp. reflexivity.
 Qed.
 
 Lemma resp_ok_snoc i acc rs c parts :
@@ -102,7 +103,8 @@ Proof.
     + split.
       * intros f Hf. destruct parts as [|p parts]; [congruence|]. cbn in Hf. rewrite Epid. apply Hpid. exact Hf.
       * intros l Hl. rewrite rev_app_distr in Hl. cbn in Hl. inversion Hl; subst. exact Emc.
-  - intros _. auto.
+  - split; [intros _; auto|]. intros p Hp. exfalso.
+    destruct parts as [|x parts]; [congruence|]. cbn in Hp. inversion Hp. destruct parts; discriminate.
 Qed.
 
 (* RunCallback from a state whose accumulator has been cleared *)
@@ -193,7 +195,7 @@ Proof. unfold comp_ok; cbn. intros H; discriminate. Qed.
 Lemma step_D s f ag s' ag' : InvA2 s (f :: ag) -> DI s -> step s f ag = (s', ag') -> DI s'.
 Proof.
   intros HA2 HD H.
-  destruct f as [[cb|full nl cb| | |r|]| | | |]; cbn [step do_op] in H.
+  destruct f as [[sn cb|full nl cb| | |r|]| | | |]; cbn [step do_op] in H.
   - destruct (s_max s <=? len (s_queue s)).
     + inversion H; subst. unfold DI in *. cbn. destruct HD as [Hd Hr]. split; [|exact Hr].
       apply forall_snoc; [exact Hd|apply comp_ok_rejected].
